@@ -64,6 +64,9 @@ def call_fn_value(ex, st, fr, fv, args):
         if re.search(r'as (std::convert::)?From<.*>>::from$', nm) or nm.endswith('::from'):
             return ex.call_named(st, fr, fv.name, args, '')
         return ex.call_named(st, fr, fv.name, args, '')
+    if isinstance(fv, VSym):
+        # a function value the caller supplied (generic F): an uninterpreted application of it, recorded as a call
+        return ex.uninterp(st, fr, '<%s as FnOnce>::call_once' % term_str(ex.to_term(st, fv)), [fv] + list(args), '')
     raise Refuse('call of %r' % (fv,))
 
 
